@@ -298,6 +298,30 @@ func plan(thorough bool) []envPlan {
 			}
 		}
 	}
+	// S4: edge values of the names - scheme and scope names in odd but legal shapes (case-only differences, prefixes,
+	// punctuation, syntax look-alikes, Unicode folding pairs, very long, leading/trailing space), same reference
+	for nm := uint8(1); nm < nNaming; nm++ {
+		type mr struct{ mode, reg uint8 }
+		cfgs := []mr{{modeRaw, 7}, {modeRaw, 6}, {modeReal, 7}}
+		if thorough {
+			cfgs = append(cfgs, mr{modeRaw, 5}, mr{modeRaw, 3}, mr{modeRealPlain, 7}, mr{modeWrapped, 7})
+		}
+		for _, c := range cfgs {
+			for _, az := range []bool{false, true} {
+				key := envKey{decl: declOp, mode: c.mode, reg: c.reg, az: az, naming: nm}
+				add(key, s2, job{level: lvlAuthorize, maxAlts: 2, azs: surfAz})
+				add(key, s2, job{level: lvlHandler, maxAlts: hAlts, azs: surfAz, rests: fine})
+				if !az && c.mode == modeRaw {
+					add(key, s2, job{level: lvlAuthenticators, maxAlts: 2, azs: []uint8{azAbsent}})
+				}
+			}
+		}
+		// declared globally, and through the typed flavour
+		for _, st := range s3[:countStructs(1)] {
+			add(envKey{decl: declGlobal, mode: modeRaw, reg: 7, naming: nm}, []structure{st}, job{level: lvlHandler, maxAlts: 2, azs: []uint8{azAbsent}, rests: fine})
+		}
+		add(envKey{decl: declOp, mode: modeRaw, reg: 7, wiring: wTyped, naming: nm}, s2, job{level: lvlHandler, maxAlts: hAlts, azs: []uint8{azAbsent}, rests: fine})
+	}
 	// an environment declares only as many structures as its jobs need
 	for i := range plans {
 		if plans[i].key.decl == declOp || plans[i].key.decl == declOpOverAnon {
@@ -689,7 +713,7 @@ func main() {
 					nst++
 				}
 			}
-			axes[fmt.Sprintf("wiring=%s declared=%s authenticators=%s level=%s structures-per-environment=%d (lists of <=%d) authorizers=%v rest=%v", wiringName[p.key.wiring], declName[p.key.decl], modeName[p.key.mode], lvlName[j.level], nst, j.maxAlts, azs, rests)]++
+			axes[fmt.Sprintf("names=%s wiring=%s declared=%s authenticators=%s level=%s structures-per-environment=%d (lists of <=%d) authorizers=%v rest=%v", namingName[p.key.naming], wiringName[p.key.wiring], declName[p.key.decl], modeName[p.key.mode], lvlName[j.level], nst, j.maxAlts, azs, rests)]++
 		}
 	}
 	r.Set("sweeps_environments", axes)
@@ -712,6 +736,10 @@ func main() {
 		"levels":                    lvlName,
 		"authenticator_flavours":    modeName,
 		"wirings":                   wiringName,
+		"namings":                   namingName,
+		"scheme_names_per_naming":   schemeNames,
+		"scope_stems_per_naming":    scopeStem,
+		"common_scopes_per_naming":  commonScope,
 	})
 	r.Assume("reference model props/c02/model.go (Appendix A.1) is the reading of the property text",
 		"scheme k at list position i requires the scopes {k.i} (k1) or {k.i, r} (k2, k3), so every alternative has distinguishable scopes",
@@ -720,5 +748,5 @@ func main() {
 	if abort.Load() {
 		r.Set("stopped_early", "more than 20000 failing cases")
 	}
-	r.Finish("every requirement structure (ordered list of 1..3 alternatives over {anonymous, non-empty subsets of 3 schemes}; the bound of each sweep is in coverage.sweeps_environments) x every evaluation order of every alternative x every per-scheme outcome vector x authorizer kinds x registered/undefined authenticator configurations, at Context.Authorize, at RouteAuthenticators.Authenticate called directly, and through the handler chain (x rest-of-request variants); x the exported surface, each variant judged by the same reference on a reduced alphabet (coverage.sweeps_environments): 8 wirings of API/context/handler (RegisterAuth and RegisterAuthorizer before or after NewContext, RoutesHandler / APIHandler / APIHandlerSwaggerUI / APIHandlerRapiDoc / middleware.Serve, a typed RoutableAPI with a generated-style handler through NewRoutableContext and NewRoutableContextWithAnalyzedSpec with an explicit DefaultRouter, security.Authorized as authorizer) and 6 authenticator flavours (scripted AuthenticatorFunc; every constructor of package security: APIKeyAuth[Ctx] header and query, BasicAuth[Ctx], BasicAuthRealm[Ctx], BearerAuth[Ctx], HttpAuthenticator, ScopedAuthenticator); one evaluation = one Authorize call or one request on the real code compared with the reference; non-trivial = at least one authenticator logged a call (the plain, context-less callbacks of package security cannot log and are not counted); the enumerator never repeats a (environment, structure, order, vector, authorizer, rest, level) tuple", !abort.Load())
+	r.Finish("every requirement structure (ordered list of 1..3 alternatives over {anonymous, non-empty subsets of 3 schemes}; the bound of each sweep is in coverage.sweeps_environments) x every evaluation order of every alternative x every per-scheme outcome vector x authorizer kinds x registered/undefined authenticator configurations, at Context.Authorize, at RouteAuthenticators.Authenticate called directly, and through the handler chain (x rest-of-request variants); x the exported surface, each variant judged by the same reference on a reduced alphabet (coverage.sweeps_environments): 8 wirings of API/context/handler (RegisterAuth and RegisterAuthorizer before or after NewContext, RoutesHandler / APIHandler / APIHandlerSwaggerUI / APIHandlerRapiDoc / middleware.Serve, a typed RoutableAPI with a generated-style handler through NewRoutableContext and NewRoutableContextWithAnalyzedSpec with an explicit DefaultRouter, security.Authorized as authorizer) and 6 authenticator flavours (scripted AuthenticatorFunc; every constructor of package security: APIKeyAuth[Ctx] header and query, BasicAuth[Ctx], BasicAuthRealm[Ctx], BearerAuth[Ctx], HttpAuthenticator, ScopedAuthenticator); x 10 namings / value classes of the names the description uses and the values the schemes yield (scheme and scope names differing only in ASCII case, prefixes of each other, with . - [ ], with space % / : # ? & = + * , ;, k vs KELVIN SIGN and non-ASCII case pairs and a rune beyond the BMP, 300-byte names, leading/trailing space; empty scope lists; non-nil zero-value principals (empty string, 0, false); a rejection that also returns a principal), the reference working on indices so that names only have to be distinct byte strings; one evaluation = one Authorize call or one request on the real code compared with the reference; non-trivial = at least one authenticator logged a call (the plain, context-less callbacks of package security cannot log and are not counted); the enumerator never repeats a (environment, structure, order, vector, authorizer, rest, level) tuple", !abort.Load())
 }
